@@ -3,6 +3,7 @@ CONSTANTS
   MaxN = 7
   Whats = {"ok", "block", "round", "psid", "type", "ts", "forged", "garbage"}
   MaxExtra = 2
+  MaxOver = 1
   Ops = {"list", "vector"}
   Ns = {1, 2, 3, 4, 5, 6, 7}
   MaxAnom = 1
